@@ -31,7 +31,7 @@ def main(tier):
     quick = tier == 'quick'
     d = V.rundir('c11')
     hl, = V.build(['h_life'])
-    n = 1500 if quick else 8000
+    n = 3000 if quick else 8000
     # histories rich in pins: the same protocol specification, longer histories
     hists, rg = LC.gen_histories(d, n * 3, 18 if quick else 20, V.seed())
     hists = [h for h in hists if any(o[0] == 2 for o in h) and any(o[0] == 13 for o in h)][:n]
